@@ -459,3 +459,176 @@ impl Query {
         false
     }
 }
+
+// ----------------------------------------------------------------------------------------------
+// text form of a case (replay files)
+// ----------------------------------------------------------------------------------------------
+
+/// A declaration with queries over it.
+#[derive(Clone, Debug, PartialEq, Eq, Hash)]
+pub struct PCase {
+    pub world: WorldDecl,
+    pub queries: Vec<Query>,
+}
+
+fn pred_code(p: &Pred) -> String {
+    match p {
+        Pred::Lit(l) => format!("L{}", l),
+        Pred::Flag(k) => format!("F{}", k),
+        Pred::NotFlag(k) => format!("N{}", k),
+    }
+}
+
+fn pred_parse(s: &str) -> Result<Pred, String> {
+    let n: u8 = s[1..].parse().map_err(|_| format!("bad predicate '{}'", s))?;
+    match &s[..1] {
+        "L" => Ok(Pred::Lit(n)),
+        "F" => Ok(Pred::Flag(n)),
+        "N" => Ok(Pred::NotFlag(n)),
+        _ => Err(format!("bad predicate '{}'", s)),
+    }
+}
+
+fn cfgs_code(c: &[Pred]) -> String {
+    if c.is_empty() {
+        "-".into()
+    } else {
+        c.iter().map(pred_code).collect::<Vec<_>>().join("+")
+    }
+}
+
+fn cfgs_parse(s: &str) -> Result<Vec<Pred>, String> {
+    if s == "-" {
+        Ok(vec![])
+    } else {
+        s.split('+').map(pred_parse).collect()
+    }
+}
+
+fn id_code(i: Option<u32>) -> String {
+    i.map(|v| v.to_string()).unwrap_or_else(|| "-".into())
+}
+
+fn id_parse(s: &str) -> Result<Option<u32>, String> {
+    if s == "-" {
+        Ok(None)
+    } else {
+        s.parse().map(Some).map_err(|_| format!("bad id '{}'", s))
+    }
+}
+
+impl PCase {
+    pub fn to_text(&self) -> String {
+        let mut s = format!("world {}\n", self.world.name);
+        for a in &self.world.archs {
+            s.push_str(&format!("arch {} {} {}", a.name, id_code(a.id), cfgs_code(&a.cfgs)));
+            for c in &a.comps {
+                s.push_str(&format!(" | {} {} {}", c.name, id_code(c.id), cfgs_code(&c.cfgs)));
+            }
+            s.push('\n');
+        }
+        for q in &self.queries {
+            s.push_str(&format!("query {}", q.kind.macro_name()));
+            for p in &q.params {
+                let ty = match &p.ty {
+                    ParamTy::Comp(c) => format!("comp:{}", c),
+                    ParamTy::OneOf(v) => format!("oneof:{}", v.join(",")),
+                    ParamTy::Entity(a) => format!("entity:{}", a),
+                    ParamTy::EntityWild => "entity_wild".into(),
+                    ParamTy::EntityAny => "entity_any".into(),
+                    ParamTy::EntityDirect(a) => format!("direct:{}", a),
+                    ParamTy::EntityDirectWild => "direct_wild".into(),
+                    ParamTy::EntityDirectAny => "direct_any".into(),
+                };
+                s.push_str(&format!(" | {} {} {}", ty, if p.is_mut { "mut" } else { "ref" }, cfgs_code(&p.cfgs)));
+            }
+            s.push('\n');
+        }
+        s
+    }
+
+    pub fn from_text(text: &str) -> Result<PCase, String> {
+        let mut name = String::from("World");
+        let mut archs = Vec::new();
+        let mut queries = Vec::new();
+        for line in text.lines() {
+            let l = line.split('#').next().unwrap().trim();
+            if l.is_empty() || l.starts_with("flags") || l.starts_with("expect") {
+                continue;
+            }
+            let parts: Vec<&str> = l.split(" | ").collect();
+            let head: Vec<&str> = parts[0].split_whitespace().collect();
+            match head[0] {
+                "world" => name = head.get(1).ok_or("world name")?.to_string(),
+                "arch" => {
+                    if head.len() != 4 {
+                        return Err(format!("bad arch line '{}'", l));
+                    }
+                    let mut comps = Vec::new();
+                    for p in &parts[1..] {
+                        let t: Vec<&str> = p.split_whitespace().collect();
+                        if t.len() != 3 {
+                            return Err(format!("bad component '{}'", p));
+                        }
+                        comps.push(CompDecl { name: t[0].to_string(), id: id_parse(t[1])?, cfgs: cfgs_parse(t[2])? });
+                    }
+                    archs.push(ArchDecl { name: head[1].to_string(), id: id_parse(head[2])?, cfgs: cfgs_parse(head[3])?, comps });
+                }
+                "query" => {
+                    let kind = QKind::ALL.iter().copied().find(|k| k.macro_name() == head[1]).ok_or_else(|| format!("bad query kind '{}'", head[1]))?;
+                    let mut params = Vec::new();
+                    for p in &parts[1..] {
+                        let t: Vec<&str> = p.split_whitespace().collect();
+                        if t.len() != 3 {
+                            return Err(format!("bad parameter '{}'", p));
+                        }
+                        let ty = if let Some(c) = t[0].strip_prefix("comp:") {
+                            ParamTy::Comp(c.to_string())
+                        } else if let Some(v) = t[0].strip_prefix("oneof:") {
+                            ParamTy::OneOf(v.split(',').map(|s| s.to_string()).collect())
+                        } else if let Some(a) = t[0].strip_prefix("entity:") {
+                            ParamTy::Entity(a.to_string())
+                        } else if let Some(a) = t[0].strip_prefix("direct:") {
+                            ParamTy::EntityDirect(a.to_string())
+                        } else {
+                            match t[0] {
+                                "entity_wild" => ParamTy::EntityWild,
+                                "entity_any" => ParamTy::EntityAny,
+                                "direct_wild" => ParamTy::EntityDirectWild,
+                                "direct_any" => ParamTy::EntityDirectAny,
+                                other => return Err(format!("bad parameter type '{}'", other)),
+                            }
+                        };
+                        params.push(Param { ty, is_mut: t[1] == "mut", cfgs: cfgs_parse(t[2])? });
+                    }
+                    queries.push(Query { kind, params });
+                }
+                other => return Err(format!("unknown line kind '{}'", other)),
+            }
+        }
+        let pool = crate::gen::POOL.iter().map(|s| s.to_string()).collect();
+        Ok(PCase { world: WorldDecl { name, archs, pool }, queries })
+    }
+
+    /// Highest flag index used anywhere + 1.
+    pub fn nflags(&self) -> u8 {
+        let mut n = 0u8;
+        let mut see = |p: &Pred| {
+            if let Pred::Flag(k) | Pred::NotFlag(k) = p {
+                n = n.max(k + 1);
+            }
+        };
+        for a in &self.world.archs {
+            a.cfgs.iter().for_each(&mut see);
+            for c in &a.comps {
+                c.cfgs.iter().for_each(&mut see);
+            }
+        }
+        for q in &self.queries {
+            for p in &q.params {
+                p.cfgs.iter().for_each(&mut see);
+            }
+        }
+        n
+    }
+}
